@@ -104,6 +104,7 @@ FnApply(name, args) ==
          ELSE AnyV
     [] name = FnNumberDecimal ->
          IF OneStr(args) /\ JV!Accepts(JV!RunSeq(JV!S0, args[1].a)) /\ args[1].a[1] \in Digit \cup {45}
+            /\ JV!PNum(args[1].a, 1).p = Len(args[1].a) + 1          \* nothing but the literal (no white space)
          THEN LET n == JV!PNum(args[1].a, 1).v IN
               IF n.huge \/ Len(n.dec.digits) + n.dec.exp10 > 300 THEN AnyV ELSE [t |-> "fltof", dec |-> n.dec]
          ELSE AnyV
